@@ -63,12 +63,12 @@ func runC13(c *Ctx) int {
 	}
 	nBase := c.Pick(80, 1500)
 	nSched := c.Pick(6, 40)
-	base := apiPrograms(c.Seed+300, nBase, []string{"mixed", "buckets", "structural", "overwrite"}, func(i int, cfg *gen.Config) {
+	base := apiPrograms(c.Seed+300, nBase, []string{"mixed", "buckets", "structural", "overwrite", "bigkeys"}, func(i int, cfg *gen.Config) {
 		cfg.HeldReaders = 0 // the schedules choose the initial map size themselves; a held reader needs a large one
 		cfg.Reopen = 0.45
 		cfg.ROProbe = 0.1
 		cfg.Txs = 9
-		cfg.NoBigKeys = true
+		cfg.NoBigKeys = cfg.Profile != "bigkeys"
 	})
 	var progs []*gen.Program
 	for _, b := range base {
